@@ -774,10 +774,15 @@ func (parser *Parser) ParseInfix(depth int) (Sexp, error) {
 	//return &SexpArray{Val: arr, Infix: true, Env: env}, nil
 }
 
-// peekAfterSign looks at the token after a lone + or - (is it Inf?) without
-// asking for more input. At top level the end of the input ends the text,
-// so a pending last token (the Inf of "- Inf") is delivered first.
+// peekAfterSign looks at the token after a lone + or - (is it Inf?).
+// Inside an open construct it waits for more input, so that a pause between
+// the sign and Inf does not change the result. At top level the end of the
+// input ends the text (a final + or - is a complete datum): there it only
+// delivers a pending last token (the Inf of "- Inf") first.
 func (parser *Parser) peekAfterSign(depth int) (tok Token, err error) {
+	if depth > 0 {
+		return parser.ParserPeekNextToken(0)
+	}
 	tok, err = parser.lexer.PeekNextToken(0)
 	if depth == 0 && err == nil && tok.typ == TokenEnd {
 		var flushed bool
